@@ -50,6 +50,8 @@ func newFS() hk.IFS { return hk.NewMemFS() }
 type accSM struct {
 	acc   uint64
 	calls []sm.Entry
+	// onPrepare, when set, runs once inside the next PrepareSnapshot (concurrent kind)
+	onPrepare func()
 }
 
 func accHash(cmd []byte) uint64 {
@@ -116,7 +118,14 @@ func (c *concAccSM) Update(ents []sm.Entry) ([]sm.Entry, error) {
 	return ents, nil
 }
 func (c *concAccSM) Lookup(q interface{}) (interface{}, error) { return c.core.Lookup(q) }
-func (c *concAccSM) PrepareSnapshot() (interface{}, error)     { return c.core.acc, nil }
+func (c *concAccSM) PrepareSnapshot() (interface{}, error) {
+	v := c.core.acc
+	if f := c.core.onPrepare; f != nil {
+		c.core.onPrepare = nil
+		f()
+	}
+	return v, nil
+}
 func (c *concAccSM) SaveSnapshot(ctx interface{}, w io.Writer, _ sm.ISnapshotFileCollection, _ <-chan struct{}) error {
 	b := make([]byte, 8)
 	binary.LittleEndian.PutUint64(b, ctx.(uint64))
@@ -657,3 +666,18 @@ func (r *replica) nonLogLookup(client uint64) (names []string, perr string) {
 	})
 	return
 }
+
+// installOld: the live replica is handed a snapshot that is OLDER than what it has
+// applied (its own previous image). StateMachine.Recover must refuse it.
+func (r *replica) installOld() (refused bool, perr string) {
+	perr = vh.Catch(func() {
+		r.feed([]pb.Entry{{Index: r.index + 1, Term: 1, Type: pb.ApplicationEntry}})
+		r.index++
+		delete(r.node.applied, r.index)
+		_, err := r.sm.Recover(hk.Task{Index: r.snap.last.Index})
+		refused = err != nil
+	})
+	return
+}
+
+func (r *replica) muFree() bool { return hk.MuFree(r.sm) }
